@@ -5,6 +5,7 @@ import math
 import numpy as np
 
 from harness import numeric
+from harness import enums
 
 
 def _m():
@@ -24,15 +25,20 @@ def cls_of(value, t, is_r2):
     return "reject" if curved else "accept"
 
 
+COST_PRIMITIVE = {"r2": "linear_r2_points", "rmspe": "rmspe_points", "rmsle": "rmsle_points", "smape": "smape_points",
+                  "rpd": "rpd_points"}
+
+
 def cost_class(P, a, b, t, cost):
     """class of the endpoint-line cost of points a..b (inclusive) against t."""
     rdp, lf, metrics, ev = _m()
     pt = P[a:b + 1]
     if len(pt) <= 2:
         return "accept"
-    c = metrics.Metrics(cost)
-    v = rdp.compute_cost_coef(pt, lf.linear_fit_points(pt), c)
-    return cls_of(v, t, c is metrics.Metrics.r2)
+    # the metric primitive itself, selected by NAME: the simplifier's own dispatch (rdp.compute_cost_coef) is part of what
+    # is being judged, not of the oracle
+    v = getattr(lf, COST_PRIMITIVE[cost])(pt, lf.linear_fit_points(pt))
+    return cls_of(v, t, cost == "r2")
 
 
 def dist_fn(distance):
@@ -76,6 +82,6 @@ def score_ranks(scores, P):
 
 def global_class(P, S, t, cost):
     rdp, lf, metrics, ev = _m()
-    c = metrics.Metrics(cost)
+    c = enums.pick(metrics.Metrics, cost)
     v = ev.compute_global_cost(P, np.array(S), c)
     return cls_of(v, t, c is metrics.Metrics.r2)
